@@ -219,6 +219,10 @@ func c07Exec(input sx.S) (obs sx.S) {
 	secs := sx.List(input)[1:]
 	execNastyStrings = true
 	defer func() { execNastyStrings = false }()
+	if s := section(secs, "lseed"); len(s) > 0 {
+		execNastySalt = sx.Int(s[0]) % len(execNasty)
+	}
+	defer func() { execNastySalt = 0 }()
 	defer withMaxDepth(secs)()
 	garble := 0
 	if s := section(secs, "garble"); len(s) > 0 {
